@@ -694,16 +694,19 @@ func HarnessC02Reuse() {
 			}
 		}
 	}
-	steps := vndParam("STEPS", 5)
-	for s := 0; s < steps; s++ {
-		switch op := vndChoice(4); op {
-		case 0, 1:
-			v := int64(vndInt(-20, 20))
-			total[op] += v
-			ctr[op].Add(context.Background(), v, metric.WithAttributeSet(pipeSets[0]))
-		case 2:
-			read(rd, &rmD, &deltaTotal, true)
-		case 3:
+	// CYCLES collection cycles: in each, either instrument records a value or
+	// stays idle, then the delta reader (and optionally the cumulative one) collects
+	cycles := vndParam("CYCLES", 3)
+	for c := 0; c < cycles; c++ {
+		for i := range ctr {
+			if vndChoice(2) == 1 {
+				v := int64(vndInt(-20, 20))
+				total[i] += v
+				ctr[i].Add(context.Background(), v, metric.WithAttributeSet(pipeSets[0]))
+			}
+		}
+		read(rd, &rmD, &deltaTotal, true)
+		if vndChoice(2) == 1 {
 			read(rc, &rmC, &cumLatest, false)
 		}
 	}
